@@ -330,7 +330,9 @@ def check_output(v, ctx, cfg, callee, pos, kws, expected_obj, ns, equal):
     width, ribbon, indent = cfg
     with common.caught_warnings() as cw:
         try:
-            out = pp.pformat(w, width=width, ribbon_width=ribbon, indent=indent)
+            # max_seq_len / sort_dict_keys are passed with non-default values (they do not truncate or reorder anything
+            # in this domain) so that the run-time contract of the context family can see a printer that loses them
+            out = pp.pformat(w, width=width, ribbon_width=ribbon, indent=indent, max_seq_len=997, sort_dict_keys=False)
         except Exception as e:
             return ('pformat-raised', '%s: %s' % (type(e).__name__, e), 'pformat returns a str', '')
     exp_text = '%s(%s)' % (callee, ', '.join(['<arg>'] * len(pos) + ['%s=<arg>' % k for k, _v, _c in kws]))
@@ -401,6 +403,9 @@ def check(case):
 
 
 def replay(case):
+    if isinstance(case, dict) and case.get('check') == 'ctx-invariant':
+        from pvf import monitor as _monitor
+        return _monitor.replay_ctx_invariant(case)
     kind, observed, expected, _out = check(case)
     if kind is None:
         return {'violated': False, 'detail': observed}
@@ -529,6 +534,8 @@ def shape_tags(inp):
 def _shard(arg):
     inputs, tier = arg
     acc = common.new_acc()
+    from pvf import monitor as _monitor
+    _sink = _monitor.install_ctx_invariant()
     cfgs = configs_of(tier)
     cnt = acc['counters']
     for inp in inputs:
@@ -563,6 +570,7 @@ def _shard(arg):
                 t.append('width-dependent')
             acc['violations'].append({'kind': kind, 'case': case, 'observed': observed, 'expected': expected,
                                       'tags': sorted(set(t))})
+    _monitor.drain(_sink, acc)
     acc = dict(acc)
     acc['nontrivial'] = sorted(acc['nontrivial'])
     return acc
